@@ -17,12 +17,35 @@ class JFn(R.Fn):
 
 class JCat(str):
     """a string argument written in the program as a concatenation of its pieces (long concatenations are kept
-    as ropes by the evaluator instead of flat strings)"""
+    as ropes by the evaluator instead of flat strings).  `cuts` (piece boundaries) and `right` (association) vary
+    the shape of the rope, so that two equal or nearly equal texts are held as differently shaped trees"""
+
+    def __new__(cls, s, cuts=None, right=False):
+        o = str.__new__(cls, s)
+        n = len(s)
+        o.cuts = sorted({0, n} | set(cuts if cuts is not None else (n // 3, (2 * n) // 3)))
+        o.right = right
+        return o
+
+    @staticmethod
+    def shaped(s, rng):
+        n = len(s)
+        k = rng.choice([1, 1, 2, 3])
+        return JCat(s, cuts=[rng.randrange(0, n + 1) for _ in range(k)] if n else [], right=rng.random() < 0.5)
 
     def source(self):
         n = len(self)
-        cuts = sorted({0, n // 3, (2 * n) // 3, n})
-        return "(" + " + ".join(jstr(self[a:b]) for a, b in zip(cuts, cuts[1:])) + ")" if n >= 3 else jstr(str(self))
+        if n < 3:
+            return jstr(str(self))
+        ps = [jstr(self[a:b]) for a, b in zip(self.cuts, self.cuts[1:]) if b > a]
+        if len(ps) == 1:
+            return ps[0]
+        if self.right:
+            out = ps[-1]
+            for q in reversed(ps[:-1]):
+                out = "(%s + %s)" % (q, out)
+            return out
+        return "(" + " + ".join(ps) + ")"
 
 
 def render(v):
@@ -204,4 +227,6 @@ def expected_json(v):
         return [expected_json(x) for x in v]
     if isinstance(v, int) and not isinstance(v, bool):
         return float(v)
+    if isinstance(v, str):
+        return str(v)    # JCat arguments flow through the reference definitions unchanged
     return v
